@@ -1572,6 +1572,7 @@ theorem C08_exactly_once_history (P : Params) (gk : List Nat → Bool → Except
       have hh1' : Hist (κ := κ) P st f1 [] st1 :=
         ⟨hh1.q, hh1.i, hh1.s, hh1.g, hh1.b, Nat.le_trans (Nat.le_add_right _ _) hh1.c⟩
       exact hh1'.envThen hh2
+    | reenter => simp only [run]; exact ih st ag
     | request t =>
       simp only [run]
       obtain ⟨f1, lost, h1, ht, hl⟩ := C08_exactly_once P gk val (waitFuelFor st ag) st ag t
